@@ -25,7 +25,7 @@ CORPUS = [
 ]
 
 
-EXTRA = ["StreamzVerif.Props.C01Sem"]
+EXTRA = ["StreamzVerif.Props.C01Sem", "StreamzVerif.Props.C01Compose"]
 
 
 def run(ctx):
